@@ -211,6 +211,9 @@ package capnp
 //@   props C01 C03
 //@   requires wfPtr(p)
 //@   ensures implies(ok, len(b) == int(p.lenOrCap)-1 && p.seg.data[int(M(p.off))+len(b)] == 0)
+//@   -- the text is a window into the segment: the list's bytes without the terminating NUL
+//@   ensures window: implies(ok, b != nil && isOneByteList(p) && sameSlice(b, p.seg.data[int(p.off):int(p.off)+int(p.lenOrCap)-1]))
+//@   ensures implies(!ok, b == nil)
 //@   ensures implies(isOneByteList(p) && int32(p.lenOrCap) >= 1 && p.flags&ptrFlags(isBitList) == 0 && p.seg.data[int(M(p.off))+int(p.lenOrCap)-1] == 0, ok)
 
 //@ func Ptr.Data -> b
